@@ -159,6 +159,9 @@ class FrameItem(EFLRItem):
             index_data = index_data.astype(np.int64)
 
         diff = np.diff(index_data)
+        if diff.size == 0:
+            return None, None  # a single row: there is no difference between consecutive samples to speak of
+
         diff_unique = np.unique(diff)
 
         if (diff_unique == 0).all():
@@ -177,7 +180,7 @@ class FrameItem(EFLRItem):
 
         # if not, check if these are minor deviations (can be attributed to numerical accuracy) or not
         median_diff = np.median(diff).item()  # mypy complains that median_diff is a numpy array...
-        if median_diff == 0:
+        if median_diff == 0 or not np.isfinite(median_diff):
             return None, direction  # need the median for denominator later; if it's 0, cannot determine uniformity
 
         deviations = (1 - diff_unique / median_diff) ** 2
